@@ -178,3 +178,5 @@ func fenvTaskman(rec *fenvRec, env *Environment, fails func(n int) bool) *task.M
 	}()
 	return tm
 }
+
+func failingCall(c *callable.Call) error { return errors.New("hook " + c.GetName() + " failed") }
